@@ -7,6 +7,7 @@ import PestModel.Model.Unicode
 import PestModel.Gen.MetaGrammar
 import PestModel.Gen.JsonGrammar
 import PestModel.Model.Json
+import PestModel.Model.Validator
 /-! Driver modes for the grammar layer:
 `O <extras> <pass> <rules>`                      → rules after the pass
 `V <cfg> <vm|gen> <orules> <rule> <input-hex>`  → outcome of the lowered back-end on the model state
@@ -209,6 +210,13 @@ def showPA (names : List String) (pa : PAttempts) : String :=
   let ts := fun (l : List PTok) => " ".intercalate ((sortDedupToks l).map fun t => toHexOrDash (debugPTok t))
   s!" PA max={pa.maxPos} cs=[{" ".intercalate cs}] exp=[{ts pa.expected}] unexp=[{ts pa.unexpected}]"
 
+/-- sort keeping duplicates. -/
+def sortNamesDup (xs : List String) : List String :=
+  let rec ins (x : String) : List String → List String
+    | [] => [x]
+    | y :: ys => if x ≤ y then x :: y :: ys else y :: ins x ys
+  xs.foldr ins []
+
 def showReport (names : List String) (o : Out) : String :=
   match o with
   | .ok s =>
@@ -332,6 +340,26 @@ def runLine (line : String) : String :=
           | .fuel => "fuel"
         if rfc = den then rfc else s!"SPLIT rfc=[{rfc}] grammar=[{den}]")
     | none => "bad-op"
+  | "L" :: ex :: rest =>
+    -- C06: the validator's verdict (kinds of findings, sorted)
+    match sexpParse rest with
+    | some (.list rs :: _) =>
+      match rs.mapM ruleOf with
+      | some rules =>
+        let errs := V.validateAst (ex = "1") rules
+        if errs.isEmpty then "ok" else
+        let tag : V.Err → String
+          | .repCannotFail _ => "RF"
+          | .repNonProgressing _ => "RP"
+          | .choiceUnreachable _ => "CU"
+          | .wsCannotFail n => "WF:" ++ n
+          | .wsNonProgressing n => "WP:" ++ n
+          | .leftRecursive n => "LR:" ++ n
+          | .tagSilent => "TS"
+          | .tagBuiltin => "TB"
+        "err " ++ " ".intercalate (sortNamesDup (errs.map tag))
+      | none => "bad-op"
+    | _ => "bad-op"
   | "R" :: _ => "same"
   | "M0" :: _ :: ins => " | ".intercalate (ins.map fun _ => "-")
   | "M" :: rule :: ins =>
